@@ -351,7 +351,13 @@ func genTS(rng *hx.Rng) []string {
 		case x < 60:
 			ops = append(ops, fmt.Sprintf("ts del %s %s", pickKey(), genTSFaults(rng, false)))
 		case x < 68:
-			ops = append(ops, fmt.Sprintf("ts rawset %s %s", hx.Pick(rng, rawKeys), hx.Pick(rng, rawVals)))
+			rk := hx.Pick(rng, rawKeys)
+			ops = append(ops, fmt.Sprintf("ts rawset %s %s", rk, hx.Pick(rng, rawVals)))
+			// raw keys that are encodings of typed keys (under one of the two key codecs): later point reads should
+			// meet the raw value (often undecodable) through the typed view
+			if tk, ok := map[string]string{"0002": "2", "0100": "256", "01": "1"}[rk]; ok {
+				setKeys = append(setKeys, tk)
+			}
 		case x < 72:
 			ops = append(ops, "ts rawdel "+hx.Pick(rng, rawKeys))
 		default:
